@@ -212,6 +212,8 @@ def run(repo: Repo, rep: Report, tier: str) -> None:
     rep.check("transfer_syntax.transfer_syntax_name = primitive.transfer_syntax[0]" in srcp and "self.transfer_syntax_sub_item = [transfer_syntax]" in srcp and "self.result_reason = primitive.result" in srcp and "self.presentation_context_id = primitive.context_id" in srcp, "ac-results", "pdu_items.PresentationContextItemAC.from_primitive", "id, result and exactly one transfer syntax (the chosen one)", "each result item carries the context id, the result and one transfer syntax", mod=items, node=acp)
 
     # ---- accepted / rejected is a partition of the negotiation result ---------------------------
+    from ..delegate import delegate as _delegate
+    _delegate(repo, rep, tier, "C10", ("one-result",), "ac-results", "the A-ASSOCIATE-AC does not carry exactly one result item per proposed presentation context (items missing for some ids, ids repeated): the response is not structurally conformant")
     rep.rule("ac-partition", "every negotiated context lands in exactly one of accepted / rejected: the A-ASSOCIATE-AC answers all of them")
     na = repo.func("acse", "ACSE._negotiate_as_acceptor")
     fqn = "acse.ACSE._negotiate_as_acceptor"
